@@ -3,7 +3,7 @@
    PsiDocument whose parts meet their interfaces equal the plain scan; ReferenceDocument too. *)
 From Coq Require Import Arith NArith List Bool Lia Sorted Permutation.
 From Blue Require Import Scrunch.ModelBits Scrunch.Model Scrunch.ProofsBits Scrunch.ProofsSorted
-  Scrunch.ProofsSuffix Scrunch.ProofsSearch Scrunch.ProofsSigma.
+  Scrunch.ProofsSuffix Scrunch.ProofsIAP Scrunch.ProofsSearch Scrunch.ProofsSigma.
 Import ListNotations.
 
 Arguments Nat.sub : simpl never.
@@ -264,9 +264,16 @@ Proof.
   apply check_record_boundaries_valid in Hc.
   rewrite (rb_from_indices (length text) rb Hc). cbn [ok_or rbind].
   rewrite so_construct. cbn [rbind]. rewrite so_translate. cbn [rbind].
-  eexists. split; [reflexivity|]. cbn [pt_rb pt_sigma pt_S pt_sa pt_isa pt_psi].
-  do 6 (split; [reflexivity|]).
-  apply sigma_index_ok. apply suffix_array_ok.
+  fold (sigma_string text).
+  pose proof (suffix_array_ok (sigma_string text)) as Hsa.
+  pose proof (so_T_length text) as HT. fold (sigma_string text) in HT.
+  rewrite (inverse_and_psi_ok (suffix_array (sigma_string text))).
+  - cbn [rbind]. eexists. split; [reflexivity|]. cbn [pt_rb pt_sigma pt_S pt_sa pt_isa pt_psi fst snd].
+    do 6 (split; [reflexivity|]).
+    apply sigma_index_ok. exact Hsa.
+  - exact (sa_NoDup _ _ Hsa).
+  - apply Forall_forall. intros v Hv. apply (sa_In _ _ Hsa) in Hv. now rewrite (sa_length _ _ Hsa).
+  - rewrite (sa_length _ _ Hsa), HT. lia.
 Qed.
 
 Theorem reference_psi_doc_correct text rb : check_record_boundaries text rb = true ->
